@@ -18,12 +18,23 @@ pipeline, configurations nn/pn/nf/pf = without/with plan x without/with frame ar
               nested function, ...)
   generated   langgen compositions with type-changing redeclarations, and the same programs
               with literals replaced by dynamically typed values of another type
+  values      the built-ins' own value spaces through scripts: substring search at the boundaries
+              tw.rs branches on (lengths around the regenerated SIMD_THRESHOLD, absent needles with
+              pieces of the needle at the very end, periodic / multi-byte needles), C13's generators
+              (long needles, mixed scripts, case strings, numerals), boundary-size arrays
+  reads       every way a variable can be read (or only written) x where the read sits relative to
+              the declaration (same block, captured in a nested function, from an enclosing
+              function, in a loop body, ...), each the ONLY use of a trap-free declaration, run with
+              the real plan: the plan must never prune what still runs needs
 
 ORACLE (implementation only): a program the checker accepted whose run panics, aborts or dies
 by a signal in any configuration is a failure.  Its key names the CLASS:
     hoisted-call-before-captured-make   the panic is at a scoping site and the extracted
-                                        WfScoped.wf_scoped rejects the program for the plan in
-                                        use (KnownClass of Properties/C06.v, open known finding)
+                                        WfScoped.wf_scoped rejects the program
+                                        ALREADY WITHOUT A PLAN (KnownClass of Properties/C06.v, open
+                                        known finding; the early-call shape is plan independent)
+    plan-prunes-needed-declaration      scoping-site panic only under the plan, of a program that is
+                                        wf_scoped without a plan and not wf_scoped for the real plan
     loopctl-in-nested-function / method-arity-dynamic-receiver /
     host-value-returned-under-frame-arena   the repaired defects, should they return
     accepted:<site key of translator/gen_panicsites.py | native:<rc>>   anything else
@@ -36,6 +47,8 @@ MODEL TIES (a break of any of them is a disagreement -> `no longer checks` -> se
       through; a resolver that starts accepting a wrong arity / misplaced comot breaks this);
   (3) the theorem direction on the implementation: wf_static and wf_scoped (for the plan of
       that configuration) true  ==>  no panic at a modelled site in that configuration.
+  (3b) plan obligation, on the REAL plan of every accepted program: wf_scoped without a plan ==>
+      wf_scoped for the plan the analysis built (stream plan-breaks-wf_scoped);
 wf_scoped is only a SUFFICIENT condition: accepted programs it rejects (early calls of
 functions that do not actually use what is declared in between) are counted, not flagged.
 """
@@ -304,6 +317,287 @@ def extremes_cases(all_pairs_separately=False):
 
 
 # --------------------------------------------------------------------------------------------
+# the built-ins' own VALUE spaces, through scripts (wave 3, C06-c1): "no accepted program crashes"
+# includes the branches the built-ins take on argument values, not only on argument types.
+# Thresholds come from the regenerated tables (Generated.simd_threshold <- src/builtins/tw.rs);
+# the random families are C13's generators (lib/props/c13.py), run here THROUGH SCRIPTS in the
+# four configurations with the no-panic oracle and the model comparison.
+
+def simd_threshold():
+    m = re.search(r"simd_threshold\s*:\s*Z\s*:=\s*(\d+)", open(os.path.join(common.COQ, "theories", "Generated.v")).read())
+    if not m:
+        raise RuntimeError("Generated.v has no simd_threshold")
+    return int(m.group(1))
+
+
+def ns_lit(b):
+    """bytes/str -> NaijaScript string literal, or None when the text cannot be spelled as a
+    static literal (braces start an interpolation; raw control characters)"""
+    s = b.decode("utf-8") if isinstance(b, bytes) else b
+    out = []
+    for ch in s:
+        if ch in "{}":
+            return None
+        if ch == '"':
+            out.append('\\"')
+        elif ch == "\\":
+            out.append("\\\\")
+        elif ch == "\n":
+            out.append("\\n")
+        elif ch == "\t":
+            out.append("\\t")
+        elif ord(ch) < 0x20 or ord(ch) == 0x7f or 0xD800 <= ord(ch) <= 0xDFFF:
+            return None
+        else:
+            out.append(ch)
+    return '"' + "".join(out) + '"'
+
+
+_C13 = None
+
+
+def c13_module():
+    global _C13
+    if _C13 is None:
+        spec = importlib.util.spec_from_file_location("c13_for_c06", os.path.join(common.VERIF, "lib", "props", "c13.py"))
+        _C13 = importlib.util.module_from_spec(spec)
+        spec.loader.exec_module(_C13)
+    return _C13
+
+
+def search_pairs(T):
+    """(haystack, needle) byte pairs at the boundaries the substring search branches on: needle
+    lengths around 1/2/3, T = SIMD_THRESHOLD and its multiples; all-distinct, periodic and
+    single-odd-byte needles (different critical factorisations / pivot bytes), multi-byte
+    needles; haystack empty / shorter / equal / longer; match at the start / the very end /
+    twice / overlapping; ABSENT with every prefix, suffix and single byte of the needle at the very
+    end of the haystack (a pivot byte found where the window no longer fits) and with
+    near-misses of equal length."""
+    alpha = b"abcdefghijklmnopqrstuvwxyz0123456789ABCDEFGHIJKLMNOPQRSTUVWXYZ"
+    fill = b"#"
+    lens = sorted(set([0, 1, 2, 3, 4, T - 1, T, T + 1, T + 2, 2 * T - 1, 2 * T, 2 * T + 1, 3 * T + 1]))
+    pairs = []
+    for L in lens:
+        pats = [(alpha * 2)[:L], b"a" * L, (b"ab" * L)[:L], (b"aab" * L)[:L], (b"abcab" * L)[:L]]
+        if L >= 2:
+            pats += [b"a" * (L - 1) + b"b", b"b" + b"a" * (L - 1), b"a" * (L // 2) + b"b" + b"a" * (L - L // 2 - 1)]
+            pats += [("é" * (L // 2)).encode() + b"x" * (L % 2), ("日" * (L // 3)).encode() + b"xy"[:L % 3]]
+        seen = set()
+        for n in pats:
+            if n in seen:
+                continue
+            seen.add(n)
+            cut = lambda k: n[:k].decode("utf-8", "ignore").encode()          # noqa: E731  (prefix on a char boundary)
+            tail = lambda k: n[k:].decode("utf-8", "ignore").encode()          # noqa: E731
+            hs = [b"", cut(L - 1), n, n + fill, fill + n, fill * T + n, n + fill * T, fill * (T + 1) + n + fill * 3, n + n,
+                  cut(L - 1) + n, cut(L - 1) + fill, fill + tail(1), cut(L - 1) * 2, tail(1) * 2, fill * (3 * T)]
+            js = list(range(1, L)) if L <= T + 2 else sorted(set([1, 2, 3, L // 3, L // 2, L // 2 + 1, 2 * L // 3, L - T, L - 3, L - 2, L - 1]))
+            for j in js:
+                if not 0 < j < L:
+                    continue
+                for d in ((0, 1) if L <= T + 2 else (0, T)):
+                    hs.append(fill * (L - j + d) + cut(j))          # a PREFIX of the needle at the very end
+                    hs.append(fill * (j + d) + tail(j))             # a SUFFIX of the needle at the very end
+                if 2 * j < L:
+                    hs.append(fill * L + n[j:L - j].decode("utf-8", "ignore").encode())     # an inner part
+            dist = sorted(set(n))
+            for c in dist[:4] + dist[-4:]:
+                if c < 0x80:
+                    hs.append(fill * max(L - 1, 0) + bytes([c]))
+                    hs.append(fill * (L + T) + bytes([c]) + fill)
+            hseen = set()
+            for h in hs:
+                if h not in hseen:
+                    hseen.add(h)
+                    pairs.append((h, n))
+    return pairs
+
+
+def values_cases(rng, quick=True):
+    """-> list of (id, program).  Each program is a batch of calls; odd lines go through
+    dynamically typed parameters, even lines use literals."""
+    T = simd_threshold()
+    c13 = c13_module()
+    cases = []
+    pre = ["do zfind(h, n) start", "  return h.find(n)", "end", "do zrepl(h, n, r) start", "  return h.replace(n, r)", "end",
+           "do zsplit(h, n) start", "  return h.split(n)", "end", "do zid(p) start", "  return p", "end"]
+
+    def flush(tag, lines, k, per):
+        for i in range(0, len(lines), per):
+            cases.append(("V/%s/%d" % (tag, k[0]), "\n".join(pre + lines[i:i + per]) + "\n"))
+            k[0] += 1
+
+    def search_lines(pairs, with_repl):
+        lines = []
+        for i, (h, n) in enumerate(pairs):
+            hl, nl = ns_lit(h), ns_lit(n)
+            if hl is None or nl is None:
+                continue
+            dyn = i % 2 == 1
+            lines.append("shout(zfind(%s, %s))" % (hl, nl) if dyn else "shout(%s.find(%s))" % (hl, nl))
+            if with_repl(i):
+                r = [b"", b"X", n + n][i % 3]
+                rl = ns_lit(r)
+                lines.append("shout(zrepl(%s, %s, %s))" % (hl, nl, rl) if not dyn else "shout(%s.replace(%s, %s))" % (hl, nl, rl))
+                lines.append("shout(zsplit(%s, %s))" % (hl, nl) if dyn else "shout(%s.split(%s).len())" % (hl, nl))
+        return lines
+
+    k = [0]
+    flush("search-boundary", search_lines(search_pairs(T), lambda i: i % 3 == 0), k, 40)
+    k = [0]
+    flush("search-long", search_lines(c13.long_needles(rng, 400 if quick else 20000), lambda i: i % 4 == 0), k, 40)
+    k = [0]
+    ms = c13.mixed_script_cases(rng, 300 if quick else 15000)
+    lines = []
+    for i, (h, n, r) in enumerate(ms):
+        hl, nl, rl = ns_lit(h), ns_lit(n), ns_lit(r)
+        if hl is None or nl is None or rl is None:
+            continue
+        if i % 2:
+            lines += ["shout(zfind(%s, %s))" % (hl, nl), "shout(%s.replace(%s, %s))" % (hl, nl, rl), "shout(zsplit(%s, %s))" % (hl, nl)]
+        else:
+            lines += ["shout(%s.find(%s))" % (hl, nl), "shout(zrepl(%s, %s, %s))" % (hl, nl, rl), "shout(%s.split(%s))" % (hl, nl)]
+    flush("search-mixed-script", lines, k, 45)
+    # case mapping / trim / len / slice over C13's case strings (the model leaves non-ASCII case
+    # mapping unsupported: the crash oracle is what applies there, so small batches)
+    k = [0]
+    lines = []
+    for i, t in enumerate(c13.case_strings(rng, 260 if quick else 8000)):
+        tl = ns_lit(t)
+        if tl is None:
+            continue
+        recv = "zid(%s)" % tl if i % 2 else tl
+        lines.append("shout(%s.to_uppercase())" % recv)
+        lines.append("shout(%s.to_lowercase().len())" % recv)
+        if i % 3 == 0:
+            lines.append('shout("[" add %s.trim() add "]")' % recv)
+            lines.append("shout(%s.slice(1, %d))" % (recv, T))
+    flush("case", lines, k, 12)
+    k = [0]
+    lines = []
+    for i, t in enumerate(c13.tonum_cases(rng, 200 if quick else 6000)):
+        tl = ns_lit(t)
+        if tl is None:
+            continue
+        lines.append("shout(%s.to_number())" % ("zid(%s)" % tl if i % 2 else tl))
+    flush("to_number", lines, k, 20)
+    # arrays: sizes around 0/1/2 and the threshold; element kinds; separators
+    k = [0]
+    for size in sorted(set([0, 1, 2, 3, T - 1, T, T + 1, 4 * T + 1])):
+        for ename, el in (("num", lambda j: str(j)), ("str", lambda j: '"s%d"' % j), ("mix", lambda j: ["1", '"a"', "true", "null", "[1]"][j % 5]),
+                          ("nested", lambda j: "[%d, [%d]]" % (j, j))):
+            arr = "[" + ", ".join(el(j) for j in range(size)) + "]"
+            for rname, r in (("lit", lambda e: e), ("dyn", lambda e: "zid(%s)" % e)):
+                lines = ["make a get %s" % r(arr), "shout(a.len())", 'shout("[" add a.join(%s) add "]")' % r('","'),
+                         'shout(a.join(%s).len())' % r('""'), 'shout(a.join(%s).len())' % r('"' + "ab" * T + '"'),
+                         "a.reverse()", "shout(a)", "a.push(%s)" % el(size), "shout(a.len())"] + \
+                        ["shout(a.pop())"] * min(size + 2, 4) + ["shout(a.len())", "a.reverse()", "shout(a)"]
+                cases.append(("V/array/%s/%d/%s" % (ename, size, rname), "\n".join(pre + lines) + "\n"))
+    assert len(set(c for c, _ in cases)) == len(cases), "values ids must be unique"
+    return cases
+
+
+# --------------------------------------------------------------------------------------------
+# every way a variable can be READ x where the read sits relative to the declaration (wave 3,
+# C06-c2): the analysis that builds the plan and the runtime that skips pruned statements must
+# agree on what a read is.  One program = one declaration with a trap-free initialiser whose ONLY
+# use is one kind of read (or one write), placed in the same block, in a nested function (capture),
+# in a block inside it, two functions deep, captured from an enclosing FUNCTION, or in a function
+# defined in a loop body; run with the REAL plan (pn/pf) as well as without.  Obligations: no
+# panic (oracle) and the extracted plan-aware WfScoped.wf_scoped holds for the real plan whenever
+# it holds without a plan ("the plan never prunes a declaration something that runs still needs").
+
+READ_KINDS = [
+    # (tag, initialiser, lines with @X@, is an expression statement only valid in a function)
+    ("var-shout", "7", ["shout(@X@)"]),
+    ("var-return", "7", ["return @X@"]),
+    ("bin-left", "7", ["shout(@X@ add 1)"]),
+    ("bin-right", "7", ["shout(1 add @X@)"]),
+    ("un-neg", "7", ["shout(minus @X@)"]),
+    ("un-not", "true", ["shout(not @X@)"]),
+    ("logic", "true", ["shout(false or @X@)"]),
+    ("cond-if", "true", ["if to say (@X@) start", "  shout(1)", "end"]),
+    ("cond-else", "false", ["if to say (@X@) start", "  shout(1)", "end", "if not so start", "  shout(2)", "end"]),
+    ("cond-loop", "false", ["jasi (@X@) start", "  shout(1)", "end", "shout(2)"]),
+    ("cond-cmp", "7", ["if to say (@X@ pass 1) start", "  shout(1)", "end"]),
+    ("idx-base", "[1, 2]", ["shout(@X@[0])"]),
+    ("idx-base2", "[[1], 2]", ["shout(@X@[0][0])"]),
+    ("idx-index", "0", ["make za get [5, 6]", "shout(za[@X@])"]),
+    ("idxassign-base", "[1, 2]", ["@X@[0] get 9"]),
+    ("idxassign-base2", "[[1], 2]", ["@X@[0][0] get 9"]),
+    ("idxassign-index", "0", ["make za get [5, 6]", "za[@X@] get 9", "shout(za)"]),
+    ("idxassign-value", "7", ["make za get [5, 6]", "za[0] get @X@", "shout(za)"]),
+    ("mut-push", "[1]", ["@X@.push(2)"]),
+    ("mut-pop", "[1]", ["shout(@X@.pop())"]),
+    ("mut-pop-stmt", "[1]", ["@X@.pop()"]),
+    ("mut-reverse", "[1, 2]", ["@X@.reverse()"]),
+    ("mut-nested", "[[1]]", ["@X@[0].push(2)"]),
+    ("push-arg", "7", ["make za get [5]", "za.push(@X@)", "shout(za)"]),
+    ("recv-len", '"abc"', ["shout(@X@.len())"]),
+    ("recv-stmt", '"abc"', ["@X@.len()"]),
+    ("method-arg", '"b"', ['shout("abc".find(@X@))']),
+    ("call-arg", "7", ["shout(zid(@X@))"]),
+    ("call-arg-stmt", "7", ["zid(@X@)"]),
+    ("builtin-arg", "7", ["shout(typeof(@X@))"]),
+    ("to_string", "7", ["shout(to_string(@X@))"]),
+    ("array-elem", "7", ["shout([@X@, 1])"]),
+    ("assign-rhs", "7", ["make zl get 0", "zl get @X@", "shout(zl)"]),
+    ("make-rhs", "7", ["make zl get @X@", "shout(zl)"]),
+    ("self-update", "7", ["@X@ get @X@ add 1"]),
+    ("write-only", "7", ["@X@ get 8"]),
+    ("expr-stmt", "7", ["@X@"]),
+    ("interp", '"hi"', ['shout("{@X@}, ok")']),
+    ("interp-num", "7", ['shout("n={@X@}")']),
+    ("interp-arr", "[1, 2]", ['shout("a={@X@}")']),
+    ("interp-twice", '"hi"', ['shout("{@X@} and {@X@}")']),
+    ("interp-in-array", '"hi"', ['shout(["{@X@}", 1])']),
+    ("interp-return", '"hi"', ['return "<{@X@}>"']),
+    ("interp-call-arg", '"hi"', ['shout(zid("{@X@}"))']),
+    ("interp-make", '"hi"', ['make zl get "{@X@}"', "shout(zl)"]),
+    ("interp-assign", '"hi"', ['make zl get ""', 'zl get "{@X@}"', "shout(zl)"]),
+    ("interp-cond", '"hi"', ['if to say ("{@X@}" na "hi") start', "  shout(1)", "end"]),
+    ("interp-recv", '"hi"', ['shout("{@X@}".len())']),
+    ("interp-method-arg", '"b"', ['shout("abc".find("{@X@}"))']),
+    ("interp-index-assign", '"hi"', ["make za get [5]", 'za[0] get "{@X@}"', "shout(za)"]),
+    ("interp-concat", '"hi"', ['shout("a" add "{@X@}")']),
+]
+
+
+def reads_cases():
+    cases = []
+    zid = ["do zid(p) start", "  return p", "end"]
+
+    def ind(lines, n=1):
+        return [("  " * n) + l for l in lines]
+
+    for tag, init, use in READ_KINDS:
+        body = [u.replace("@X@", "x") for u in use]
+        has_ret = any(l.lstrip().startswith("return") for l in body)
+        call = "shout(zr())" if has_ret else "zr()"
+        decl = "make x get %s" % init
+        layouts = []
+        if not has_ret:
+            layouts.append(("same", [decl] + body))
+            layouts.append(("same-block", [decl, "if to say (true) start"] + ind(body) + ["end"]))
+        layouts.append(("fn", [decl, "do zr() start"] + ind(body) + ["end", call]))
+        layouts.append(("fn-def-first-call-twice", [decl, "do zr() start"] + ind(body) + ["end", call, call]))
+        layouts.append(("fn-block", [decl, "do zr() start", "  if to say (true) start"] + ind(body, 2) + ["  end", "  return 0" if not has_ret else "  return 1",
+                                     "end", "shout(zr())"]))
+        layouts.append(("fn2", [decl, "do zo() start", "  do zr() start"] + ind(body, 2) + ["  end", "  " + call, "end", "zo()"]))
+        layouts.append(("encl-fn", ["do zo() start", "  " + decl, "  do zr() start"] + ind(body, 2) + ["  end", "  " + call, "end", "zo()", "zo()"]))
+        layouts.append(("encl-block", ["if to say (true) start", "  " + decl, "  do zr() start"] + ind(body, 2) + ["  end", "  " + call, "end"]))
+        layouts.append(("loop-fn", ["make zi get 0", "jasi (zi small pass 2) start", "  " + decl, "  do zr() start"] + ind(body, 2) +
+                        ["  end", "  " + call, "  zi get zi add 1", "end"]))
+        layouts.append(("param-shadow-other", [decl, "do zr(q) start"] + ind(body) + ["end", call.replace("zr()", "zr(1)")]))
+        layouts.append(("redeclared", [decl, "do zr() start"] + ind(body) + ["end", decl, call]))
+        layouts.append(("reassigned", [decl, "do zr() start"] + ind(body) + ["end", "x get %s" % init, call]))
+        for lname, lines in layouts:
+            cases.append(("R/%s/%s" % (tag, lname), "\n".join(zid + lines) + "\n"))
+    assert len(set(c for c, _ in cases)) == len(cases), "reads ids must be unique"
+    return cases
+
+
+# --------------------------------------------------------------------------------------------
 # structural shapes and the corpus of repaired / known defects (stable ids)
 
 SHAPES = [
@@ -565,9 +859,13 @@ def judge(env, cid, src, rec, mrec, wf, out, release=False):
         skey, psite = ("native:" + text, None) if native else site_of_panic(text)
         crashed_cfgs = sorted(c for c, _ in crashed)
         frame_only = all(c.endswith("f") for c in crashed_cfgs)
-        if psite in SCOPING_SITES and scoped_ok[langcheck.MODEL_CFG.get(cfg, "n")] == "0":
-            # KnownClass of Properties/C06.v: not wf_scoped, and the panic is at a scoping site
+        if psite in SCOPING_SITES and scoped_ok["n"] == "0":
+            # KnownClass of Properties/C06.v: not wf_scoped ALREADY WITHOUT A PLAN (the early-call shape is a
+            # property of the program), and the panic is at a scoping site
             key = "hoisted-call-before-captured-make"
+        elif psite in SCOPING_SITES and scoped_ok["n"] == "1" and scoped_ok["p"] == "0" and all(c.startswith("p") for c in crashed_cfgs):
+            # the program is well scoped, the plan pruned a declaration that something which runs still needs
+            key = "plan-prunes-needed-declaration"
         elif psite == "PBreakEscapes" and w.get("loopctl") == "0":
             key = "loopctl-in-nested-function"
         elif psite == "PArgIndex" and w.get("wf") == "0":
@@ -618,6 +916,16 @@ def judge(env, cid, src, rec, mrec, wf, out, release=False):
             for mc in ("n", "p"):
                 if scoped_ok[mc] is not None:
                     out["scoped"][mc + scoped_ok[mc]] = out["scoped"].get(mc + scoped_ok[mc], 0) + 1
+            # the plan-aware obligation, on the REAL plan of every accepted program: a plan must not turn a
+            # well-scoped program into one that is not (wf_scoped skips exactly what the runtime skips)
+            if not release and scoped_ok["n"] is not None and scoped_ok["p"] is not None:
+                po = out.setdefault("plan_obligation", {})
+                jk = "noplan=%s plan=%s" % (scoped_ok["n"], scoped_ok["p"])
+                po[jk] = po.get(jk, 0) + 1
+                if scoped_ok["n"] == "1" and scoped_ok["p"] == "0":
+                    out["disagreements"].append({"stream": "plan-breaks-wf_scoped", "id": cid, "case": src, "plan": rec.get("plan"),
+                                                 "observed": "wf_scoped holds without a plan and fails for the plan the analysis built: "
+                                                             "the plan prunes a declaration (or function) that a statement which still runs refers to"})
 
 
 def run_stream(env, name, cases, out, model=True, release=False, reuse=None):
@@ -678,7 +986,9 @@ def correspond(env, searching=False, model=True):
         ngen *= 2
     gen, gstats = generated_cases(env, ngen)
     ext = extremes_cases(all_pairs_separately=not quick)
-    streams = [("shapes", shapes), ("product", prod), ("extremes", ext), ("generated", gen)]
+    vals = values_cases(env.rng, quick)
+    reads = reads_cases()
+    streams = [("shapes", shapes), ("product", prod), ("extremes", ext), ("values", vals), ("reads", reads), ("generated", gen)]
     per_stream = {}
     cache = {}
     for name, cases in streams:
@@ -715,6 +1025,15 @@ def correspond(env, searching=False, model=True):
                   "extremes_what": "numeric extremes: %d programs; slice with ALL PAIRS of %d bound values on empty/ASCII/multi-byte strings, "
                                    "array index read/assign (flat, nested either level, empty), number methods/printing, find/replace/split/join/pop/len "
                                    "with empty and very long arguments; literal and dynamically typed route each" % (len(ext), len(EXT_VALUES)),
+                  "values_what": "built-in value spaces through scripts: %d batch programs; substring search at the boundaries of tw.rs "
+                                 "(needle lengths around 1/2/3 and SIMD_THRESHOLD=%d and its multiples, periodic / all-distinct / odd-byte / multi-byte needles, "
+                                 "absent needles with every prefix, suffix and byte of the needle at the very end), C13's long_needles / mixed_script_cases / "
+                                 "case_strings / tonum_cases, arrays of the boundary sizes; literal and dynamically typed route" % (len(vals), simd_threshold()),
+                  "reads_what": "%d programs: %d kinds of read (every expression position incl. interpolation segments, index bases, mutating receivers, "
+                                "conditions, write-only) x 10-12 placements (same block, captured in a nested function / a block in it / two deep / from an "
+                                "enclosing function / in a loop body, redeclared, reassigned); obligation: wf_scoped(real plan) whenever wf_scoped(no plan)" % (
+                                    len(reads), len(READ_KINDS)),
+                  "plan_obligation": out.get("plan_obligation", {}),
                   "streams": per_stream, "accepted": out["accepted"], "rejected_by_checker": out["rejected"],
                   "ending_histogram_accepted": out["endings"], "model_compare": out["compare"],
                   "crash_keys": out["crash_keys"], "wf_scoped_histogram": out["scoped"],
